@@ -30,8 +30,132 @@ def run(chk, tier, overlays=()):
     chk.nfunctions += len(P.fns)
     frames(chk, P, FRAME_FILES, FRAME_EXCEPTIONS, floor=25)
     reversal(chk, P)
+    traverse(chk, P)
     chk.floor("REVERSE", 8)
-    chk.assumptions += ["overlap tests, depths, tolerance bands and mesh traversal are numerical geometry and not decided"]
+    chk.floor("TRAVERSE", 20)
+    chk.assumptions += ["overlap tests, depths and tolerance bands are numerical geometry and not decided; of the mesh traversal only the completeness of the descent and the node/box pairing are decided"]
+
+
+def _sel(a, pname):
+    """how argument a selects from tree-node parameter pname: '=' the node itself, 'F' / 'S' its first / second child, None otherwise"""
+    if isinstance(a, list) and a[:1] == ["var"] and a[1] == pname:
+        return "="
+    if isinstance(a, list) and a and a[0] == "call" and isinstance(a[2], list) and a[2][:1] == ["var"] and a[2][1] == pname and not a[3]:
+        n = a[1].split("::")[-1]
+        return {"getFirstChildNode": "F", "getSecondChildNode": "S"}.get(n)
+    return None
+
+
+def traverse(chk, P):
+    chk.rule("TRAVERSE", "bounding-volume-tree descents (functions with OBBTreeNode parameters that call themselves): wherever a node is descended, BOTH children are visited with "
+             "otherwise identical arguments (for two trees: the full cross product of the children); and a bounding box passed along with a node is the box of exactly that "
+             "node -- `X * <that node>.getBounds()`, or the box parameter unchanged when the node parameter is passed unchanged -- so no subtree pair is pruned with another "
+             "subtree's box")
+    n = 0
+    for f in sorted(P.all_fns(), key=lambda f: f.id):
+        ps = f.d.get("params", [])
+        nodes = [k for k, p_ in enumerate(ps) if "OBBTreeNode" in p_[1] and "Impl" not in p_[1]]
+        if not nodes:
+            continue
+        selfc = [(b, i, e) for b, i, e in f.calls() if e.get("fid") == f.id]
+        if not selfc:
+            continue
+        n += 1
+        short = f.name.replace("SimTK::", "")
+        boxes = [k for k, p_ in enumerate(ps) if "OrientedBoundingBox" in p_[1]]
+        # ---- both children, full cross product, per block
+        byblock = {}
+        for b, i, e in selfc:
+            byblock.setdefault(b, []).append(e)
+        for b, es in sorted(byblock.items()):
+            tuples = []
+            okshape = True
+            for e in es:
+                a = call_args(e)
+                t = tuple(_sel(a[k], ps[k][0]) for k in nodes)
+                if None in t:
+                    okshape = False
+                tuples.append(t)
+            site = "%s:%d" % (f.file, es[0]["line"])
+            if not chk.shape(okshape, "TRAVERSE", "%s@%d:node-arguments-select-from-the-parameters" % (short, es[0]["line"] - f.line), site, "node arguments: %s" % tuples):
+                continue
+            per = [sorted({t[j] for t in tuples}) for j in range(len(nodes))]
+            want = set()
+            def prod(j, acc):
+                if j == len(per):
+                    want.add(tuple(acc))
+                    return
+                for x in (["F", "S"] if set(per[j]) & {"F", "S"} else ["="]):
+                    prod(j + 1, acc + [x])
+            prod(0, [])
+            ordn = sorted(byblock).index(b)
+            chk.judge(set(tuples) == want and len(tuples) == len(want), "TRAVERSE", "%s:descent#%d:all-children" % (short, ordn), site,
+                      "descended child combinations %s; required %s (each once)" % (sorted(tuples), sorted(want)))
+            # other (non-node, non-box) arguments identical across the sibling calls
+            rest = {tuple(sx_str(x) for k, x in enumerate(call_args(e)) if k not in nodes and k not in boxes) for e in es}
+            chk.judge(len(rest) == 1, "TRAVERSE", "%s:descent#%d:same-other-arguments" % (short, ordn), site, "the sibling calls differ only in the nodes (and their boxes)")
+        # ---- box pairing at every call site of f (recursive or not)
+        if not boxes:
+            continue
+        # which node parameter a box parameter belongs to: the one whose argument owns the box at the call sites that derive it
+        partner = {}
+        for bk in boxes:
+            votes = {}
+            for g in P.all_fns():
+                for b, i, e in g.calls():
+                    if e.get("fid") != f.id:
+                        continue
+                    a = call_args(e)
+                    gb = sx_find(_expand_here(g, a[bk], e), lambda y: y[0] == "call" and y[1].split("::")[-1] == "getBounds")
+                    if len(gb) == 1:
+                        for k in nodes:
+                            if _expand_here(g, a[k], e) == gb[0][2]:
+                                votes[k] = votes.get(k, 0) + 1
+            if votes:
+                partner[bk] = max(sorted(votes), key=lambda k: votes[k])
+        for g in sorted(P.all_fns(), key=lambda g: g.id):
+            sites = [(b, i, e) for b, i, e in g.calls() if e.get("fid") == f.id]
+            for b, i, e in sites:
+                a = call_args(e)
+                for bk in boxes:
+                    src = a[bk]
+                    site = "%s:%d" % (g.file, e["line"])
+                    cnt = sum(1 for _b, _i, _e in sites if _e["line"] <= e["line"])
+                    inst = "%s<-%s#%d:box" % (short, g.name.split("::")[-1], cnt)
+                    if g is f and isinstance(src, list) and src[:1] == ["var"] and src[1] == ps[bk][0]:
+                        # own box handed on: the node it belongs to must be handed on unchanged too
+                        pk = partner.get(bk)
+                        okp = pk is not None and _sel(a[pk], ps[pk][0]) == "="
+                        chk.judge(okp, "TRAVERSE", inst + ":unchanged-with-its-node", site,
+                                  "the box parameter %s is passed on unchanged but the node it belongs to (%s) is not: %s" % (ps[bk][0], ps[pk][0] if pk is not None else "?", sx_str(a[pk]) if pk is not None else ""))
+                        continue
+                    x = _expand_here(g, src, e)
+                    gb = sx_find(x, lambda y: y[0] == "call" and y[1].split("::")[-1] == "getBounds")
+                    if not chk.shape(len(gb) == 1, "TRAVERSE", inst + ":is-a-getBounds-expression", site, "box argument %s" % sx_str(x)[:120]):
+                        continue
+                    owner = gb[0][2]
+                    match = [k for k in nodes if _expand_here(g, a[k], e) == owner and k == partner.get(bk, k)]
+                    chk.judge(len(match) == 1, "TRAVERSE", inst + ":belongs-to-a-passed-node", site,
+                              "the box passed is that of %s, but the nodes passed are %s: the callee prunes this subtree pair with another subtree's box" % (sx_str(owner), [sx_str(a[k]) for k in nodes]))
+    chk.shape(n >= 4, "TRAVERSE", "tree-descents-found", "", "%d recursive functions with OBBTreeNode parameters" % n)
+
+
+def _expand_here(f, x, at_ev, depth=3):
+    """x with each never-reassigned local replaced by the initialiser of the declaration of that name that reaches at_ev"""
+    if not isinstance(x, list) or depth <= 0:
+        return x
+    if len(x) == 2 and x[0] == "var":
+        ds = [(b, i, d) for b, i, d in f.events(lambda q: q["k"] == "decl" and q["var"] == x[1] and q.get("init") is not None)]
+        if not ds or any(True for _ in f.events(lambda q: q["k"] == "assign" and var_of(q["lhs"]) == x[1] and q["lhs"][0] == "var")):
+            return x
+        live = [d for b, i, d in ds if f.path_exists((b, i), lambda q: q is at_ev, lambda q: any(q is o[2] for o in ds if o[2] is not d), lift=0) is not None]
+        if len(live) == 1:
+            init = live[0]["init"]
+            if isinstance(init, list) and init[:1] == ["ctor"] and len(init[2]) == 1:
+                init = init[2][0]
+            return _expand_here(f, init, at_ev, depth - 1)
+        return x
+    return [_expand_here(f, y, at_ev, depth) for y in x]
 
 
 def reversal(chk, P):
@@ -112,7 +236,21 @@ def _init_then_guard(g, p1, p2):
 
 _S = "Simbody/src/ContactTrackerSubsystem.cpp"
 _T = "SimTKmath/Geometry/src/ContactTracker.cpp"
+_T = "SimTKmath/Geometry/src/ContactTracker.cpp"
+_A = "SimTKmath/Geometry/src/CollisionDetectionAlgorithm.cpp"
 MUTATIONS = [
+    dict(name="seeded (sub-agent): (second child, first child) pair pruned with the second child's box", arm=True, file=_T,
+         old="findIntersectingFaces(mesh1, mesh2, node1.getSecondChildNode(), node2.getFirstChildNode(), firstChildBounds, X_M1M2, triangles1, triangles2);",
+         new="findIntersectingFaces(mesh1, mesh2, node1.getSecondChildNode(), node2.getFirstChildNode(), secondChildBounds, X_M1M2, triangles1, triangles2);",
+         expect="findIntersectingFaces<-findIntersectingFaces#3:box:belongs-to-a-passed-node"),
+    dict(name="sphere/mesh descent visits the first child twice", file=_T,
+         old="        processBox(mesh, node.getSecondChildNode(), center_M, radius2,", new="        processBox(mesh, node.getFirstChildNode(), center_M, radius2,", expect="SphereTriangleMesh::processBox:descent#0:all-children"),
+    dict(name="old mesh/mesh algorithm skips the (second, second) pair", file=_A,
+         old="            processNodes(mesh1, mesh2, node1.getSecondChildNode(), node2.getSecondChildNode(), secondChildBounds, X_M1M2, triangles1, triangles2);\n", new="",
+         expect="processNodes:descent#"),
+    dict(name="leaf-vs-inner descent hands the parent's box to the children", file=_T,
+         old="        findIntersectingFaces(mesh1, mesh2, node1, node2.getFirstChildNode(), firstChildBounds, X_M1M2, triangles1, triangles2);",
+         new="        findIntersectingFaces(mesh1, mesh2, node1, node2.getFirstChildNode(), node2Bounds_M1, X_M1M2, triangles1, triangles2);", expect="box:unchanged-with-its-node"),
     dict(name="relative transform computed without the inverse", arm=True, file=_T,
          old="    const Transform X_HB = ~X_GH * X_GB; // 63 flops", new="    const Transform X_HB = X_GH * X_GB; // 63 flops", expect="FRAME:"),
     dict(name="mesh/mesh relative transform uses the wrong mesh", file=_T,
